@@ -109,6 +109,7 @@ func c20Sequence(ctx *Ctx, i int, rng *rand.Rand) {
 	g0 := runtime.NumGoroutine()
 	// harness-side mirror of the model state, only to know which operations are enabled
 	started, loops, waitq := false, 0, 0
+	endedBy := "" // how the run whose result is due ended: "failed keep-alive" or "stop"
 	var ops []c20Op
 	var items []string
 	var mon []string
@@ -163,6 +164,7 @@ func c20Sequence(ctx *Ctx, i int, rng *rand.Rand) {
 			}
 			if err != agent.ErrAlreadyStarted {
 				waitq = 0 // an accepted Start drops results of earlier runs that nobody collected
+				endedBy = ""
 			}
 			if !started && oc == "SOk" && err == nil {
 				started, loops = true, loops+1
@@ -191,6 +193,9 @@ func c20Sequence(ctx *Ctx, i int, rng *rand.Rand) {
 						emit("wait", "LWait", "(RWait WNil)", 0)
 					} else {
 						emit("wait", "LWait", "(RWait WErr)", 0)
+						if endedBy == "" {
+							mon = append(mon, fmt.Sprintf("c20-wait-spurious-error: the loop was stopped, yet Wait returned an error: %v", err))
+						}
 					}
 					waitq--
 				case <-time.After(2 * time.Second):
@@ -217,6 +222,7 @@ func c20Sequence(ctx *Ctx, i int, rng *rand.Rand) {
 			waitq += loops
 			loops = 0
 			started = false
+			endedBy = "failed keep-alive"
 		case r < 8: // wait, only when a result is due
 			if waitq == 0 {
 				continue
@@ -227,9 +233,13 @@ func c20Sequence(ctx *Ctx, i int, rng *rand.Rand) {
 			case err := <-res:
 				if err == nil {
 					emit("wait", "LWait", "(RWait WNil)", 0)
+					if endedBy == "failed keep-alive" {
+						mon = append(mon, "c20-wait-lost-error: the loop ended because the pool failed a keep-alive, yet Wait reported a clean stop (nil): the owner cannot tell a failure from a Stop")
+					}
 				} else {
 					emit("wait", "LWait", "(RWait WErr)", 0)
 				}
+				endedBy = ""
 				waitq--
 			case <-time.After(2 * time.Second):
 				emit("wait", "LWait", "RNone", 0)
